@@ -8,7 +8,21 @@ JInit == ji = 1
 JNext == ji < Len(Cases) /\ ji' = ji + 1
 JSpec == JInit /\ [][JNext]_ji
 (* kind "slices": sl = <<<<lo,hi>>,...>> observed for (N, P) *)
+(* kind "closed": beyond TLC's (MaxN, MaxP): ranks = <<<<r, lo, hi>>,...>> observed from the code for some ranks of (N, P); they must be
+   the closed forms about which PartitionProofs.tla proves tiling for every N and P.  K is the exit value of the get_functions loop. *)
+RECURSIVE Loop(_, _, _)
+Loop(k, n, p) == IF k * (p - 1) > n THEN Loop(k - 1, n, p) ELSE k
+K(n, p) == Loop(Pt!CeilDiv(n, p), n, p)
+ClosedClauses(c) ==
+  LET k == K(c.N, c.P) IN
+  IF c.what = "split_idx"
+  THEN (IF \E t \in 1..Len(c.ranks) : c.ranks[t][2] # Pt!SplitLoC(c.N, c.ranks[t][1], c.P) THEN {"lower_end_is_closed_form"} ELSE {})
+       \cup (IF \E t \in 1..Len(c.ranks) : c.ranks[t][3] # Pt!SplitLoC(c.N, c.ranks[t][1] + 1, c.P) THEN {"upper_end_is_closed_form"} ELSE {})
+  ELSE (IF \E t \in 1..Len(c.ranks) : c.ranks[t][2] # Pt!FitLo(c.N, c.ranks[t][1], k) THEN {"lower_end_is_closed_form"} ELSE {})
+       \cup (IF \E t \in 1..Len(c.ranks) : c.ranks[t][3] # Pt!FitHi(c.N, c.ranks[t][1], c.P, k) THEN {"upper_end_is_closed_form"} ELSE {})
+       \cup (IF k < 0 THEN {"chunk_length_nonnegative"} ELSE {})
 Clauses(c) == CASE c.kind = "slices" -> Pt!TilesClauses(c.sl, c.N, c.P)
+                [] c.kind = "closed" -> ClosedClauses(c)
                 [] OTHER -> {"unknown_kind"}
 Verdict == LET c == Cases[ji] v == Clauses(c) IN v = {} \/ PrintT(ToJson([id |-> c.id, failed |-> v]))
 Counted == (ji = Len(Cases)) => PrintT(ToJson([judged |-> ji]))
